@@ -49,7 +49,7 @@ def profile(name):
         p['p_split'] = 0.5
         p['p_between_rewire'] = 0.6
     elif name == 'buffers':       # C05
-        p['stage_w'].update({'buffer': 8, 'batcher': 1.5, 'group': 0.5, 'nested_group': 0})
+        p['stage_w'].update({'buffer': 8, 'batcher': 1.5, 'group': 0.5, 'nested_group': 0, 'rework': 1.2})
         p['p_batch_source'] = 0.35
         p['sink_cts'] = [0, 0.5, 1, 2, 3]
         p['n_stages'] = (2, 6)
@@ -61,24 +61,29 @@ def profile(name):
         p['p_maintainer'] = 0.9
         p['p_ct_script'] = 0.4
         p['p_finish_offset'] = 0.35
+        p['ops_w']['create_asset'] = 1.0
+        p['p_refuse'] = 0.2
         p['p_same_instant'] = 0.5
     elif name == 'routing':       # C08
-        p['stage_w'].update({'gates': 3.5, 'group': 3.5, 'nested_group': 1.2, 'flow': 1.2, 'batcher': 0.7})
+        p['stage_w'].update({'gates': 3.5, 'group': 3.5, 'nested_group': 1.2, 'flow': 1.2, 'batcher': 0.7,
+                             'rework': 0.8})
         p['p_fanout'] = 0.45
         p['p_fanin'] = 0.35
         p['n_stages'] = (3, 8)
         p['ops_w'].update({'block': 3, 'unblock': 3})
         p['p_collect'] = 0.9
         p['p_scheduler'] = 0.4
+        p['p_flag_gate'] = 0.3
     elif name == 'resources':     # C11 / C10
-        p['stage_w'].update({'processor': 9, 'group': 1.5, 'handler': 1, 'buffer': 2})
+        p['stage_w'].update({'processor': 9, 'group': 1.5, 'handler': 1, 'buffer': 2, 'res_fanout': 2.5})
         p['p_resources'] = 1.0
         p['n_resources'] = (1, 3)
         p['res_cap'] = (1, 3)
         p['ops_w'].update({'add_capacity': 4, 'fail': 2, 'work_order': 2})
         p['n_sources'] = (1, 3)
     elif name == 'resfaults':     # C11 / C03: contention for pools under dense shutdown / failure / work-order scripts
-        p['stage_w'].update({'processor': 9, 'group': 1.2, 'handler': 1, 'buffer': 2, 'gates': 0.7, 'batcher': 0.3})
+        p['stage_w'].update({'processor': 9, 'group': 1.2, 'handler': 1, 'buffer': 2, 'gates': 0.7, 'batcher': 0.3,
+                             'res_fanout': 1.5})
         p['p_resources'] = 1.0
         p['n_resources'] = (1, 2)
         p['res_cap'] = (1, 2)
@@ -141,6 +146,7 @@ class Gen:
         self.items = []
         self.n = 0
         self.frontier = []          # ids whose output still needs a consumer
+        self.loops = []             # connections closing a loop, made before the first run
         self.order = {}             # id -> creation index (for DAG-respecting rewires)
         self.resources = {}
         self.in_group = set()
@@ -203,6 +209,8 @@ class Gen:
             it['wo'] = {t: [rng.choice([0, 0.5, 1, 2, 3]), rng.choice([0, 0.5, 1, 1, 2]), rng.choice([0, 1, 2.5])]
                         for t in ('x', 'y')}
         # (else: the library's default work-order duration / capacity / cost of 0)
+        if rng.random() < self.p.get('p_refuse', 0):
+            it['refuse'] = rng.choice([1, 2, 2, 3])    # every k-th planned stop is refused by a shutdown callback
         return self.add(it)
 
     def mk_buffer(self, ups):
@@ -223,14 +231,58 @@ class Gen:
         elif kind == 'flow':
             ups = self.pick_ups()
             self.frontier.append(self.add({'id': self.nid('F'), 'kind': 'flow', 'up': ups}))
+        elif kind == 'rework':
+            # a rework loop made of pass-through devices only: buffer -> gate -> the same buffer
+            ups = self.pick_ups()
+            b = self.add({'id': self.nid('B'), 'kind': 'buffer', 'up': ups, 'cap': rng.choice([2, 3, 4, 8, None]),
+                          'delay': rng.choice(self.p['buffer_delay'])})
+            m = rng.choice([2, 3, 4])
+            back = self.add({'id': self.nid('G'), 'kind': 'gate', 'up': [b],
+                             'pred': {'t': 'rework', 'dev': b, 'm': m, 'again': True}})
+            on = self.add({'id': self.nid('G'), 'kind': 'gate', 'up': [b],
+                           'pred': {'t': 'rework', 'dev': b, 'm': m, 'again': False}})
+            self.frontier.append(self.mk_simple([on]))
+            self.loops.append({'t': None, 'prio': 5, 'op': 'rewire', 'target': b, 'new_up': back})
+        elif kind == 'res_fanout':
+            # a pass-through device (plain controller or an accept-all gate) feeding several parallel processors that
+            # draw on the same pool, the pool being large enough for all of them at once
+            if not self.resources:
+                return self.frontier.append(self.mk_simple(self.pick_ups()))
+            ups = self.pick_ups()
+            if rng.random() < 0.5:
+                f = self.add({'id': self.nid('F'), 'kind': 'flow', 'up': ups})
+            else:
+                f = self.add({'id': self.nid('G'), 'kind': 'gate', 'up': ups, 'pred': {'t': 'always'}})
+            r = rng.choice(sorted(self.resources))
+            k = rng.choice([2, 2, 3])
+            cts = [rng.choice([2, 3, 4])] + [rng.choice([0.25, 0.5, 1]) for _ in range(k - 1)]
+            if rng.random() < 0.3:
+                rng.shuffle(cts)
+            if rng.random() < 0.8:
+                self.resources[r] = max(self.resources[r], k)
+            ends = []
+            for ct in cts:
+                it = {'id': self.nid('P'), 'kind': 'processor', 'up': [f], 'ct': ct, 'res': {r: 1}}
+                if rng.random() < 0.5:
+                    it['wo'] = {t: [rng.choice([0, 0.5, 1, 2]), rng.choice([0, 1]), 0] for t in ('x', 'y')}
+                ends.append(self.add(it))
+            if rng.random() < 0.6:
+                self.frontier.append(self.mk_simple(ends, ('handler', 'buffer')))
+            else:
+                self.frontier.extend(ends)
         elif kind == 'gates':
             ups = self.pick_ups()
             t = rng.choice(['seq_mod', 'seq_mod', 'value_ge', 'total'])
+            if self.p.get('p_flag_gate') and rng.random() < self.p['p_flag_gate']:
+                t = 'flag'          # decides on a user attribute of the part that the script flips while parts wait
+                self.has_flag_gate = True
             if t == 'total':
                 g = self.add({'id': self.nid('G'), 'kind': 'gate', 'up': ups, 'pred': {'t': 'always'}})
                 self.frontier.append(self.mk_simple([g]))
                 return
-            if t == 'seq_mod':
+            if t == 'flag':
+                preds = [{'t': 'flag', 'want': False}, {'t': 'flag', 'want': True}]
+            elif t == 'seq_mod':
                 m = rng.choice([2, 3])
                 preds = [{'t': 'seq_mod', 'm': m, 'r': [r for r in range(m) if r % 2 == 0]},
                          {'t': 'seq_mod', 'm': m, 'r': [r for r in range(m) if r % 2 == 1]}]
@@ -414,6 +466,36 @@ class Gen:
                                rng.choice([{'t': None, 'prio': 5, 'op': 'env_run', 'd': rng.choice([0.5, 1, 2.5])},
                                            {'t': None, 'prio': 5, 'op': 'env_step', 'n': rng.choice([1, 3, 7])}]))
                 spec['between'].append(gap)
+        if len(segs) >= 2 and rng.random() < p.get('p_zero_run', 0.25):
+            # a zero-length simulate() call right after operations that schedule events for the current instant
+            k = rng.randrange(len(segs) - 1)
+            bt = spec.setdefault('between', [[] for _ in range(len(segs) - 1)])
+            procs_ = [i['id'] for i in self.items if i['kind'] == 'processor']
+            if procs_:
+                bt[k].append({'t': None, 'prio': 5, 'op': 'fail', 'target': rng.choice(procs_)})
+            segs.insert(k + 1, 0)
+            bt.insert(k + 1, [])
+        if rng.random() < p.get('p_pre', 0.25):
+            # operations issued by ordinary code between construction and the FIRST simulate() call
+            pre = []
+            fin1 = [i for i in self.items if i['kind'] == 'source' and (i.get('budget') or 0) >= 1]
+            if fin1 and rng.random() < 0.7:
+                it = rng.choice(fin1)
+                pre.append({'t': None, 'prio': 5, 'op': 'adjust_budget', 'target': it['id'],
+                            'n': rng.choice([-1, -2, -3, -it['budget'], 2, 4])})
+            if self.rand_op is not None:
+                for k in ('block', 'set_cycle', 'unblock'):
+                    if rng.random() < 0.3:
+                        try:
+                            e = self.rand_op(None, k)
+                        except (IndexError, ValueError):
+                            e = None
+                        if e is not None:
+                            pre.append(e)
+            if pre:
+                spec['pre'] = pre
+        if self.loops:
+            spec['pre'] = list(self.loops) + (spec.get('pre') or [])
         if rng.random() < p['p_poke']:
             cands = [i['id'] for i in self.items if i['kind'] not in ('group',)]
             spec['poke'] = rng.sample(cands, min(len(cands), rng.choice([1, 2, 3])))
@@ -460,6 +542,8 @@ class Gen:
         if len(free) < 2:
             w.pop('rewire', None)
             w.pop('rewire_remove', None)
+        if getattr(self, 'has_flag_gate', False):
+            w['flag_waiting'] = 12
         for it in self.items:
             # a top-up at exactly the instant at which the exhausted source's spare part is ready (an unblocked
             # source supplies its k-th part at k * cycle time; the next one is ready one cycle later)
@@ -468,6 +552,14 @@ class Gen:
                 if t <= horizon:
                     ops.append({'t': t, 'prio': rng.choice(PRIOS), 'op': 'adjust_budget', 'target': it['id'],
                                 'n': rng.choice([1, 2, 3])})
+        for it in self.items:
+            # the remaining budget withdrawn completely and given back later (possibly while the source is blocked)
+            if it['kind'] == 'source' and it.get('budget') and rng.random() < 0.35:
+                t1 = grid_time(rng, horizon * 0.7)
+                ops.append({'t': t1, 'prio': rng.choice(PRIOS), 'op': 'adjust_budget', 'target': it['id'],
+                            'n': -int(it['budget']) - 5})
+                ops.append({'t': min(horizon, t1 + rng.choice([0.5, 1, 2, 4, 8])), 'prio': rng.choice(PRIOS),
+                            'op': 'adjust_budget', 'target': it['id'], 'n': rng.choice([2, 3, 6])})
         for it in self.items:
             if it['kind'] == 'source' and it.get('budget') == 0:
                 ops.append({'t': grid_time(rng, horizon / 2.0), 'prio': rng.choice(PRIOS), 'op': 'adjust_budget',
@@ -505,7 +597,7 @@ class Gen:
                 e['target'] = rng.choice(late_path_targets)
                 e['ct'] = rng.choice([0, 0.5, 1])
             elif op == 'create_asset':
-                e['what'] = rng.choice(['maintainer', 'handler'])
+                e['what'] = rng.choice(['maintainer', 'handler', 'processor'])
                 e['value'] = rng.choice([10, -2.5, 100, 0.5, 0])
             elif op == 'rewire_remove':
                 multi = [i['id'] for i in self.items if i['id'] in free and len(i.get('up', [])) >= 2]
@@ -581,8 +673,14 @@ def part_seq(part):
     return 0
 
 
-def eval_pred(pred, part):
+def eval_pred(pred, part, gate=None):
     t = pred['t']
+    if t == 'rework':
+        # every m-th part goes once more through the buffer right upstream of the gate
+        buf = gate.upstream[0] if gate is not None else None
+        visits = sum(1 for d in part.routing_history if d is buf or (buf is None and d.name == pred['dev']))
+        again = part_seq(part) % pred['m'] == 0 and visits < 2
+        return again == pred['again']
     if t == 'always':
         return True
     if t == 'seq_mod':
@@ -591,6 +689,8 @@ def eval_pred(pred, part):
         return part.value >= pred['th']
     if t == 'value_lt':
         return part.value < pred['th']
+    if t == 'flag':
+        return bool(getattr(part, 'h_flag', False)) == pred['want']
     raise ValueError(t)
 
 
@@ -604,7 +704,7 @@ class Pred:
         self.pred = pred
 
     def __call__(self, gate, part):
-        r = eval_pred(self.pred, part)
+        r = eval_pred(self.pred, part, gate)
         if GATE_LOG is not None:
             from . import instrument
             if not instrument.PROBING:
